@@ -16,6 +16,7 @@ are decided exactly (AVN):
 A flipped sign in any of these makes the truth a repeller or moves the equilibrium; that is what the rules detect.
 """
 import ast
+LINT_EXTRA_FILES = ("ahrs/common/orientation.py",)      # acc2q / am2q / ecompass helpers the filters start from
 import numpy as np
 from sa import poly as P
 from sa.facts import Facts
